@@ -10,7 +10,8 @@ use vstd::std_specs::convert::*;
 verus! {
 
 // ---------------------------------------------------------------------------
-// elvis/src/applications/arp_router.rs :: ArpRouter::demux - the per-hop forwarding step of C16.
+// elvis/src/applications/arp_router.rs :: ArpRouter::demux - the per-hop forwarding step of C16, including the body of the
+// task it spawns (run in line: ARP resolution modelled by its eventual answer, send_pci by a log of frames).
 //
 // What IS the repository's code: the whole synchronous part of `demux` - reading the header the IPv4 layer put into
 // the context, the time-to-live step and its drop test, re-serialising the header in front of the payload, the routing
@@ -57,13 +58,34 @@ pub fn vx_control_ipv4(c: &VxControl) -> (r: Option<&Ipv4Header>)
 //@ rewrite `(\n\s*)(ip_table|local_ips):` => `\1pub \2:` ## visibility only
 //@ end
 
-/// what `demux` hands on
-pub enum VxForward {
-    /// nothing is forwarded
-    Dropped,
-    /// `message` is handed to ARP (resolve `address_pair.remote` on tap `slot`) and then to that tap
-    Send { message: Message, address_pair: AddressPair, slot: PciSlot },
+pub type Mac = u64;
+//@ item sim/elvis-core/src/protocols/arp.rs :: struct NoResponseError strip-attrs
+//@ rewrite `pub struct NoResponseError;` => `#[derive(Clone, Copy)] pub struct NoResponseError;` ## thiserror / other derives dropped
+//@ end
+
+/// the ARP protocol of the router's machine, reduced to the answer `resolve` eventually gives for a query (opaque)
+#[verifier::external_body]
+pub struct VxArp { _p: core::marker::PhantomData<u8> }
+impl VxArp {
+    /// the hardware address ARP resolves `pair.remote` to on tap `slot`, None when resolution fails
+    pub uninterp spec fn answer(&self, pair: AddressPair, slot: PciSlot) -> Option<Mac>;
 }
+/// ASSUMED contract standing for `arp.resolve(address_pair, slot, machine).await` (asynchronous, another machine answers)
+#[verifier::external_body]
+pub fn vx_arp_resolve(arp: &VxArp, pair: AddressPair, slot: PciSlot) -> (r: Result<Mac, NoResponseError>)
+    ensures
+        r matches Ok(m) ==> arp.answer(pair, slot) == Some(m),
+        r is Err ==> arp.answer(pair, slot) is None,
+{ unimplemented!() }
+
+/// one frame handed to a tap: `PciSession::send_pci(message, destination, ..)` on the session of `slot`
+pub struct VxFrame { pub slot: PciSlot, pub message: Message, pub destination: Option<Mac>, pub asked: AddressPair }
+/// stands for `machine.protocol::<Pci>().unwrap().open(slot).send_pci(message, destination, TypeId::of::<Ipv4>())`:
+/// the frame is appended to the log of frames this call of demux put on a wire (destination None = link broadcast)
+/// (`asked` records the in-scope ARP query `address_pair`, so that the contract can tie the destination to its answer)
+pub fn vx_send_pci(log: &mut Vec<VxFrame>, slot: PciSlot, message: Message, destination: Option<Mac>, asked: AddressPair)
+    ensures final(log)@ == old(log)@.push(VxFrame { slot, message, destination, asked }),
+{ log.push(VxFrame { slot, message, destination, asked }); }
 
 /// a header as the IPv4 decoder produces it
 pub open spec fn rt_hdr_ok(h: Ipv4Header) -> bool { h.total_length >= 20 && h.fragment_offset <= 0x1fff }
@@ -82,48 +104,60 @@ impl ArpRouter {
     }
 
 //@ item sim/elvis/src/applications/arp_router.rs :: impl Protocol for ArpRouter / fn demux id=ArpRouter.demux
-//@ rewrite `_caller: Arc<dyn Session>,\s*control: Control,\s*machine: Arc<Machine>,\s*\) -> Result<\(\), DemuxError>` => `control: &VxControl, ) -> Result<VxForward, DemuxError>` ## see the unit header: dyn Session / Machine parameters dropped, Control replaced by the opaque VxControl, the result names what is handed on
+//@ rewrite `_caller: Arc<dyn Session>,\s*control: Control,\s*machine: Arc<Machine>,\s*\) -> Result<\(\), DemuxError>` => `control: &VxControl, arp: &VxArp, ) -> Result<Vec<VxFrame>, DemuxError>` ## see the unit header: dyn Session / Machine parameters dropped, Control and the machine's Arp protocol replaced by opaque values, the result is the log of frames handed to taps
 //@ rewrite `control\.get::<Ipv4Header>\(\)` => `vx_control_ipv4(control)` ## Control::get::<Ipv4Header>() (TypeId map + downcast) routed to the assumed-contract accessor
-//@ rewrite `return Ok\(\(\)\);` => `return Ok(VxForward::Dropped);` ## the early return after the TTL test: nothing is forwarded
+//@ rewrite `return Ok\(\(\)\);` => `return Ok(vx_sent);` ## early return: the (empty) log of frames
 //@ rewrite `message\.header\(ipv4_header\.serialize\(\)\.or\(Err\(DemuxError::Other\)\)\?\);` => `message.header_inner(Chunk::new(match ipv4_header.serialize() { Ok(vx_v) => vx_v, Err(_) => { return Err(DemuxError::Other); } }));` ## Message::header(impl Into<Chunk>) inlined (header_inner(Chunk::new(vec))); Result::or(Err(e))? written as the equivalent match
-//@ rewrite `let arp = machine\.protocol::<Arp>\(\)\.unwrap\(\);` => `` ## asynchronous tail dropped (see the unit header)
-//@ rewrite `tokio::spawn\(async move \{[\s\S]*?\n        \}\);\s*Ok\(\(\)\)` => `Ok(VxForward::Send { message, address_pair, slot })` ## asynchronous tail (ARP resolution, then send_pci of `message` on `slot`) replaced by returning what it is given
+//@ rewrite `let arp = machine\.protocol::<Arp>\(\)\.unwrap\(\);` => `` ## the machine's Arp protocol is the parameter `arp`
+//@ rewrite `tokio::spawn\(async move \{` => `{` ## the spawned task is run in line: its body is sequential code with one await (sequentialised; scheduling not modelled)
+//@ rewrite `arp\s*\.resolve\(address_pair, slot, machine\.clone\(\)\)\s*\.await` => `vx_arp_resolve(arp, address_pair, slot)` ## Arp::resolve(..).await routed to the assumed-contract function (its eventual answer)
+//@ rewrite `let session = machine\.protocol::<Pci>\(\)\.unwrap\(\)\.open\(slot\);` => `` ## the tap session of `slot` is named by the slot in the frame log
+//@ rewrite `session\s*\.send_pci\(message, ([^;]*?), TypeId::of::<Ipv4>\(\)\)\s*\.expect\("failed to send"\);` => `vx_send_pci(&mut vx_sent, slot, message, \1, address_pair);` ## PciSession::send_pci routed to the frame log (MTU refusal / expect not modelled)
+//@ rewrite `\}\);\s*Ok\(\(\)\)` => `} Ok(vx_sent)` ## end of the in-lined task; the result is the log of frames
+//@ start
+        let mut vx_sent: Vec<VxFrame> = Vec::new();
 //@ contract
     requires
         self.wf(), message.wf(), message@.len() + 20 <= usize::MAX,
         control.ipv4() matches Some(h) ==> rt_hdr_ok(h),
     ensures
-        // no header in the context: refused, nothing forwarded
+        // no header in the context: refused
         control.ipv4() is None ==> r is Err,
-        // (C16) TTL bounds every packet's life: a datagram that arrives with TTL 0 or 1 is never forwarded ...
-        control.ipv4() matches Some(h) ==> (h.time_to_live <= 1 ==> r == Ok::<VxForward, DemuxError>(VxForward::Dropped)),   //# an_expired_datagram_is_never_forwarded [C16]
-        // ... and whatever is forwarded went through the TTL step
-        r matches Ok(VxForward::Send { .. }) ==> control.ipv4() matches Some(h) && h.time_to_live >= 2,   //# an_expired_datagram_is_never_forwarded [C16]
+        // (C16) forwarding never multiplies packets: one call puts at most one frame on a wire
+        r matches Ok(fs) ==> fs@.len() <= 1,   //# forwarding_never_multiplies_packets [C16]
+        // (C16) TTL bounds every packet's life: a datagram that arrives with TTL 0 or 1 is never forwarded
+        r matches Ok(fs) ==> (fs@.len() == 1 ==> (control.ipv4() matches Some(h) && h.time_to_live >= 2)),   //# an_expired_datagram_is_never_forwarded [C16]
+        control.ipv4() matches Some(h) ==> (h.time_to_live <= 1 ==> (r matches Ok(fs) && fs@.len() == 0)),   //# an_expired_datagram_is_never_forwarded [C16]
         // (C16) each hop decrements the time-to-live by exactly one, every other header field and the payload are
         //       forwarded unchanged (the header checksum is recomputed)
-        r matches Ok(VxForward::Send { message: m, .. }) ==> control.ipv4() matches Some(h) && m.wf()
-            && m@ == (Ipv4Header { time_to_live: (h.time_to_live - 1) as u8, ..h }).wire() + message@,   //# each_hop_decrements_ttl_by_one_payload_unchanged [C16]
-        // (C16) forwarded along the configured route: the next hop is the gateway of the longest-prefix route for the
-        //       destination (the destination itself on a directly attached subnet), on that route's tap slot, from the
-        //       router's address on that slot
-        r matches Ok(VxForward::Send { address_pair: ap, slot: sl, .. }) ==> control.ipv4() matches Some(h)
-            && (route_is(self.ip_table.table@, val(h.destination), Some(ap.remote), sl)
-                || (route_is(self.ip_table.table@, val(h.destination), None, sl) && ap.remote == h.destination))
-            && (sl as int) < self.local_ips@.len() && ap.local == self.local_ips@[sl as int],   //# forwarded_along_the_longest_prefix_route [C16]
-        // a datagram for which no route exists is not forwarded
-        control.ipv4() matches Some(h) ==> (is_lpm(self.ip_table.table@, val(h.destination), None::<(Option<Ipv4Address>, PciSlot)>) ==> !(r matches Ok(VxForward::Send { .. }))),   //# no_route_no_forwarding [C16]
+        r matches Ok(fs) ==> (fs@.len() == 1 ==> (control.ipv4() matches Some(h) && fs@[0].message.wf()
+            && fs@[0].message@ == (Ipv4Header { time_to_live: (h.time_to_live - 1) as u8, ..h }).wire() + message@)),   //# each_hop_decrements_ttl_by_one_payload_unchanged [C16]
+        // (C16) forwarded along the configured route and to no other host: the frame goes out on the tap slot of the
+        //       longest-prefix route for the destination, unicast to the hardware address ARP resolved for that route's
+        //       gateway (for a directly attached subnet: for the destination itself), asked from the router's own
+        //       address on that slot - never as a link broadcast
+        r matches Ok(fs) ==> (fs@.len() == 1 ==> (control.ipv4() matches Some(h) && ({
+            let f = fs@[0];
+            &&& (route_is(self.ip_table.table@, val(h.destination), Some(f.asked.remote), f.slot)
+                 || (route_is(self.ip_table.table@, val(h.destination), None, f.slot) && f.asked.remote == h.destination))
+            &&& (f.slot as int) < self.local_ips@.len() && f.asked.local == self.local_ips@[f.slot as int]
+            &&& f.destination is Some && f.destination == arp.answer(f.asked, f.slot)
+        }))),   //# forwarded_unicast_along_the_longest_prefix_route [C16]
+        // (C16) a route that leads nowhere: without a route, or when the next hop does not answer ARP, nothing is forwarded
+        control.ipv4() matches Some(h) ==> (is_lpm(self.ip_table.table@, val(h.destination), None::<(Option<Ipv4Address>, PciSlot)>) ==> !(r matches Ok(fs) && fs@.len() > 0)),   //# no_route_no_forwarding [C16]
+        (forall|p: AddressPair, sl: PciSlot| #![trigger arp.answer(p, sl)] arp.answer(p, sl) is None) ==> (r matches Ok(fs) ==> fs@.len() == 0),   //# unresolved_next_hop_is_dropped_not_flooded [C16]
 //@ before 1 `let gateway = match pair.0`
         proof {
             assert((pair.0, pair.1) == pair);
             assert(route_is(self.ip_table.table@, val(ipv4_header.destination), pair.0, pair.1));
         }
-//@ before 1 `Ok(VxForward::Send { message, address_pair, slot })`
+//@ after 1 `let slot = pair.1;`
         proof {
             let ghost h0 = control.ipv4()->0;
             assert(h0.destination == ipv4_header.destination);
             assert(route_is(self.ip_table.table@, val(h0.destination), pair.0, slot));
-            assert(address_pair.remote == (match pair.0 { Some(g) => g, None => h0.destination }));
-            assert((slot as int) < self.local_ips@.len() && address_pair.local == self.local_ips@[slot as int]);
+            let ghost via_gateway = route_is(self.ip_table.table@, val(h0.destination), Some(gateway), slot);
+            if pair.0 is Some { assert(via_gateway); } else { assert(gateway == h0.destination); }
         }
 //@ end
 }
